@@ -15,7 +15,12 @@ RULE = ("histories of 0-10 noise operations (other descriptions / tracts parsed,
         "cleared / disabled / pre-warmed, dicts returned by trs_to_dict overwritten by the caller, objects created under "
         "other defaults) followed by a probe (PLSSDesc, Tract, TRS, trs_to_dict, find_twprge); the probe's output is "
         "compared with the same probe evaluated alone in a fresh interpreter process; non-trivial = history with at "
-        "least one noise operation; distinct by (history, probe)")
+        "least one noise operation; distinct by (history, probe).  Plus heap-level histories of 8-30 operations on up to five TRS / Tract "
+        "objects over three strings (construct, assign, from/set_twprgesec, trs_to_dict of a string / of an object, cache on / off / "
+        "clear, MasterConfig, the caller overwriting or reading the k-th dict he was given, `is`-identity of the private dicts, "
+        "cache keys in insertion order with the objects attached): compared line by line with Model/WorldHeap, and checked "
+        "against the model-free oracle 'every read = trs_to_dict of what the object was set from; no dict handed out is an "
+        "object's or the cache's'")
 TRUSTED = ["C15: a fresh `python` process is the reference for 'no prior history'"]
 ASSUMPTIONS = ["TRS._recompile (documented as unsupported) is not part of the operation set"]
 
@@ -162,6 +167,27 @@ def run(ctx):
                                             'after_history': [g[:400] for g in got], 'fresh': [g[:400] for g in ref]})
         histories.append((ops, out))
     hist.compare_histories(ctx, histories)
+    # heap-level histories: dict objects have identity (Model/WorldHeap, theorems in Lemmas/Heap); a caller overwrites the
+    # dicts the public conversion function gave him; aliasing between objects and the cache is observed with `is`
+    import heap
+    from common import run_groups
+    hs = [heap.rand_history(rng.fork(500000 + i), rng.fork(500000 + i).range(8, 30)) for i in range(ctx.budget(250, 20000))]
+    pys = [heap.run_history(h) for h in hs]
+    for h, (out, oracle_bad) in zip(hs, pys):
+        rep.count(len(h))
+        rep.nontrivial('heap:' + json.dumps([list(map(str, o)) for o in h]))
+        for k in set(o[0] for o in h):
+            rep.dist('c15_heap_op', k)
+        for why in oracle_bad[:1]:
+            rep.violation('failing-input', {'heap_history': [list(map(str, o)) for o in h], 'why': why})
+    if ctx.driver is not None:
+        outs = run_groups(ctx.driver, [heap.history_lines(h) for h in hs])
+        for h, (py, _), out in zip(hs, pys, outs):
+            for k, (a, b) in enumerate(zip(py, out[1:])):
+                if a != b:
+                    ctx.corr_bad.append({'case': {'heap_history': [list(map(str, o)) for o in h[:k + 1]], 'step': k},
+                                         'implementation': a[:600], 'model': b[:600]})
+                    break
     # "the MasterConfig defaults in force at the time of the call": an object created under one MasterConfig and used under
     # another fills missing directions from the one in force NOW (unless it was configured with directions of its own)
     import pytrs
